@@ -5,6 +5,13 @@ From PV Require Import Plan.Model Plan.Proofs.
 Import ListNotations.
 Local Open Scope N_scope.
 
+(* lia's preprocessing chokes on the long literal lists inside [length _]; abstract them first *)
+Ltac abstract_lengths :=
+  repeat match goal with
+         | |- context [@length ?A ?l] => let k := fresh "k" in set (k := @length A l) in *; clearbody k
+         | H : context [@length ?A ?l] |- _ => let k := fresh "k" in set (k := @length A l) in *; clearbody k
+         end.
+
 Lemma eat_ws_nonspace : forall c r, c <> c_sp -> eat_ws (c :: r) = c :: r.
 Proof. intros c r H. simpl. rewrite (proj2 (N.eqb_neq _ _) H). reflexivity. Qed.
 
@@ -71,6 +78,19 @@ Proof.
         - rewrite <- app_assoc. apply eat_ws_escape; auto. }
       rewrite Ey. rewrite (IH f t rest);
         [simpl map; rewrite Hl; reflexivity | simpl in Hf; simpl; lia | intros d Hd; apply Hg; right; auto | exact Ht].
+Qed.
+
+Lemma read_paths_one_sp : forall x fuel t rest,
+  (2 <= fuel)%nat -> good_path x -> nonspace_terminator t ->
+  read_paths fuel (escape x ++ c_sp :: t :: rest) = Some ([lits x], t :: rest).
+Proof.
+  intros x fuel t rest Hf [Hne Hx] Ht.
+  destruct fuel as [|[|f]]; try lia.
+  cbn [read_paths]. rewrite (escape_roundtrip_lemma x c_sp _ Hx (or_introl eq_refl)).
+  destruct (lits_nonempty x Hne) as [a [b Hl]]. rewrite Hl.
+  rewrite eat_ws_sp. rewrite (eat_ws_nonspace t) by (apply nst_not_space; auto).
+  unfold lex_path. rewrite lex_path_terminator by (apply nst_path_terminator; auto).
+  rewrite (eat_ws_nonspace t) by (apply nst_not_space; auto). reflexivity.
 Qed.
 
 Lemma read_ident_spec : forall a t r,
@@ -177,37 +197,37 @@ Proof.
       assert (Ee : eat_ws (md ++ c_nl :: rest) = md ++ c_nl :: rest).
       { destruct md as [|c m']; [reflexivity|]. cbn [app]. apply eat_ws_nonspace. eapply Hns; reflexivity. }
       rewrite Ee. rewrite raw_value_lemma; [reflexivity|]. intros c Hc. split; auto. }
+  assert (Hw2 : (2 <= S (length whole))%nat) by (unfold whole, s_build; simpl length; abstract_lengths; lia).
+  assert (Hwd : (length deps < S (length whole))%nat).
+  { clear Hbind Hbind2 Er Hw2. unfold whole, s_build, depspart.
+    destruct deps as [|d0 dr]; [cbn [length]; apply Nat.lt_0_succ|].
+    pose proof (join_length (d0 :: dr) (fun d h => proj1 (Hd d h))) as HJ. unfold str in *.
+    set (n := length (d0 :: dr)) in *. clearbody n.
+    repeat (rewrite app_length; cbn [length]).
+    abstract_lengths. lia. }
+  clearbody whole tailB.
   destruct deps as [|d0 dr].
   - (* no dependencies *)
-    unfold depspart. simpl app.
-    rewrite (read_paths_join [inp] (S (length whole)) c_nl).
-    2:{ simpl. lia. }
-    2:{ intros d [<-|[]]. split; auto. }
-    2:{ right; right; reflexivity. }
-    cbn [map]. cbn -[read_binding]. rewrite Hbind, Hbind2. reflexivity.
+    unfold depspart. cbn [app].
+    rewrite (read_paths_join [inp] (S (length whole)) c_nl);
+      [| simpl; lia | intros d [<-|[]]; split; auto | right; right; reflexivity].
+    cbv beta iota. change (c_nl =? c_pipe) with false. cbv beta iota.
+    rewrite N.eqb_refl. rewrite Hbind, Hbind2. reflexivity.
   - unfold depspart.
-    assert (Es : join_sp (map escape [inp]) ++ ([c_sp; c_pipe; c_sp] ++ join_sp (map escape (d0 :: dr))) ++ c_nl :: tailB ++ rest =
-                 escape inp ++ c_sp :: (c_pipe :: c_sp :: (join_sp (map escape (d0 :: dr)) ++ c_nl :: tailB ++ rest))).
-    { simpl join_sp at 1. rewrite app_nil_r. repeat (rewrite <- app_assoc; simpl app). reflexivity. }
-    rewrite Es. cbn [read_paths].
-    rewrite (escape_roundtrip_lemma inp c_sp _ Hic (or_introl eq_refl)).
-    destruct (lits_nonempty inp Hin) as [a [b Hl]]. rewrite Hl. rewrite eat_ws_sp.
-    rewrite (eat_ws_nonspace c_pipe) by discriminate.
-    assert (Hp : read_paths (length whole) (c_pipe :: c_sp :: join_sp (map escape (d0 :: dr)) ++ c_nl :: tailB ++ rest)
-                 = Some ([], c_pipe :: c_sp :: join_sp (map escape (d0 :: dr)) ++ c_nl :: tailB ++ rest)).
-    { destruct (length whole) eqn:El; [unfold whole in El; simpl in El; discriminate|]. reflexivity. }
-    rewrite Hp. rewrite <- Hl. cbn -[read_paths read_binding eat_ws join_sp].
+    match goal with |- context [read_paths _ ?X] =>
+      assert (Es : X = escape inp ++ c_sp :: c_pipe :: (c_sp :: join_sp (map escape (d0 :: dr)) ++ c_nl :: tailB ++ rest))
+    end.
+    { cbn [map join_sp]. repeat (rewrite <- app_assoc; cbn [app]). reflexivity. }
+    rewrite Es.
+    rewrite (read_paths_one_sp inp (S (length whole)) c_pipe); [| exact Hw2 | split; auto | right; left; reflexivity].
+    cbv beta iota. rewrite N.eqb_refl. cbv beta iota.
+    change ((c_sp =? c_pipe) || (c_sp =? c_at)) with false. cbv beta iota.
     rewrite eat_ws_sp.
     assert (Ed : eat_ws (join_sp (map escape (d0 :: dr)) ++ c_nl :: tailB ++ rest) =
                  join_sp (map escape (d0 :: dr)) ++ c_nl :: tailB ++ rest).
-    { destruct (Hd d0 (or_introl eq_refl)) as [Hn0 _]. destruct dr as [|d1 dr']; simpl.
+    { destruct (Hd d0 (or_introl eq_refl)) as [Hn0 _]. destruct dr as [|d1 dr']; cbn [map join_sp].
       - apply eat_ws_escape; auto.
       - rewrite <- app_assoc. apply eat_ws_escape; auto. }
-    rewrite Ed. rewrite (read_paths_join (d0 :: dr) (S (length whole)) c_nl).
-    + cbn -[read_binding]. rewrite Hbind, Hbind2. reflexivity.
-    + unfold whole. repeat rewrite app_length. simpl length.
-      pose proof (join_length (d0 :: dr) (fun d h => proj1 (Hd d h))).
-      unfold depspart. rewrite !app_length. simpl length. lia.
-    + auto.
-    + right; right; reflexivity.
+    rewrite Ed. rewrite (read_paths_join (d0 :: dr) (S (length whole)) c_nl); [| exact Hwd | exact Hd | right; right; reflexivity].
+    cbv beta iota. rewrite N.eqb_refl. rewrite Hbind, Hbind2. reflexivity.
 Qed.
